@@ -913,7 +913,15 @@ func c25Run(c *core.Ctx, raw json.RawMessage) {
 		for _, d := range recs {
 			for _, m := range d.Msgs {
 				if m.Index != g.Index {
-					if _, ok := c25SubseqEnd(g.Events, m.Events); ok && len(m.Events) > 0 {
+					// changes that the entry at m.Index made itself are not a mislabelled copy
+					var own []cdcXEvent
+					for _, og := range expected[m.Index] {
+						own = append(own, og.Events...)
+					}
+					if _, isOwn := c25SubseqEnd(g.Events, own); isOwn {
+						continue
+					}
+					if c25ContainsFull(g.Events, m.Events) {
 						found = append(found, fmt.Sprintf("delivery %d (from %s) under index %d", d.Seq, d.Node, m.Index))
 					}
 				}
@@ -938,14 +946,14 @@ func c25Run(c *core.Ctx, raw json.RawMessage) {
 			}
 			f := finding{}
 			switch {
+			case !later && len(appliedBy[k]) < 3:
+				// some node never executed this entry (it received the result inside a
+				// snapshot), so its CDC service never saw the change
+				f = finding{"lost-change-not-captured-everywhere", fmt.Sprintf("log index %d changed rows [%s]; no delivery labelled %d contains them (waited %v simulated after the last fault); only %s applied this entry from the log, the other node(s) received it inside a snapshot", k, cdcIdentsOf(g.Events), k, 120*time.Second, c25Nodes(appliedBy[k]))}
 			case elsewhere != "" && !later:
 				f = finding{"mislabelled-index", fmt.Sprintf("log index %d changed rows [%s]; they were never delivered under index %d, only as %s", k, cdcIdentsOf(g.Events), k, elsewhere)}
 			case elsewhere != "":
 				f = finding{"mislabelled-later-commit", fmt.Sprintf("log index %d, %s, changed rows [%s]; they were never delivered under index %d, only as %s", k, pos, cdcIdentsOf(g.Events), k, elsewhere)}
-			case !later && len(appliedBy[k]) < 3:
-				// some node never executed this entry (it received the result inside a
-				// snapshot), so its CDC service never saw the change
-				f = finding{"lost-change-not-captured-everywhere", fmt.Sprintf("log index %d changed rows [%s]; no delivery contains them (waited %v simulated after the last fault); only %s applied this entry from the log, the other node(s) received it inside a snapshot", k, cdcIdentsOf(g.Events), 120*time.Second, c25Nodes(appliedBy[k]))}
 			case !later:
 				f = finding{"lost-change", fmt.Sprintf("log index %d changed rows [%s]; no delivery contains them (waited %v simulated after the last fault; %d deliveries in total, indices seen: %s)", k, cdcIdentsOf(g.Events), 120*time.Second, len(recs), c25Indices(seenIdx))}
 			default:
@@ -1017,6 +1025,18 @@ func c25SubseqEnd(want, got []cdcXEvent) (int, bool) {
 		}
 	}
 	return 0, len(want) == 0
+}
+
+// c25ContainsFull reports whether want appears in order within got with full
+// equality (identity and before/after images).
+func c25ContainsFull(want, got []cdcXEvent) bool {
+	j := 0
+	for _, g := range got {
+		if j < len(want) && want[j] == g {
+			j++
+		}
+	}
+	return len(want) > 0 && j == len(want)
 }
 
 func c25Nodes(m map[string]bool) string {
